@@ -6,6 +6,10 @@
 import LispModel
 import LispModel.CallDriver
 import LispModel.ConcDriver
+import LispModel.LispErrorDriver
+import LispModel.PositionDriver
+import LispModel.PkgRegDriver
+import LispModel.MetaDriver
 open LispModel
 
 def splitBar (s : String) : List String := s.splitOn " | "
@@ -142,6 +146,8 @@ partial def matchPreamble (phs : List (String × Val)) (text : List Char) (src :
 
 def handle (line : String) : String :=
   match line.splitOn "\t" with
+  | ["pkgreg", payload] => PkgReg.handlePkgReg payload
+  | ["meta", payload] => Meta.handleMeta payload  -- C02/C06/C13/C14 support, see LispModel/MetaDriver.lean
   | ["eq", payload] =>
     match (splitBar payload).map Proto.parseLine with
     | [some a, some b] => s!"{tf (equalQ a b)}\t{tf (structEqB a b)}"
@@ -221,6 +227,8 @@ def handle (line : String) : String :=
     | none => "bad-op"
   | ["call", payload, extra] => CallDriver.handleCall payload extra  -- C20, see LispModel/CallDriver.lean
   | ["conc", payload, extra] => ConcDriver.handleConc payload extra  -- C09/C10, see LispModel/ConcDriver.lean
+  | ["lerr", payload] => LispErrorDriver.handleLispError payload  -- C03/C04/C17/C19 support, see LispModel/LispErrorDriver.lean
+  | ["posalg", payload] => handlePosition payload  -- C17/C19 support, see LispModel/PositionDriver.lean
   | _ => "bad-op"
 
 /-! ### eval -/
